@@ -98,7 +98,7 @@ func isOperatorChar(c int) bool {
 func isStopChar(c int) bool {
 	switch c {
 	case -1, '{', '}', '[', ']', '(', ')', ',', '"', '\'',
-		' ', '\t', '\n', '\r':
+		' ', '\t', '\n', '\r', '\v', '\f':
 		return true
 	default:
 		return false
@@ -108,7 +108,7 @@ func isStopChar(c int) bool {
 // Is this character whitespace?
 func isWhitespace(c int) bool {
 	switch c {
-	case ' ', '\t', '\n', '\r':
+	case ' ', '\t', '\n', '\r', '\v', '\f':
 		return true
 	}
 	return false
